@@ -306,6 +306,10 @@ package impl
 //@     invariant 0 <= i && i <= len(input)
 //@     invariant len(result) == exclLen(d, input, i)
 //@     invariant forall k int :: 0 <= k && k < i && keepE(d, input[k]) ==> exclLen(d, input, k) < len(result) && result[exclLen(d, input, k)] == input[k]
+// the second loop only appends: the kept items stay where they are
+//@   loop 2 (j):
+//@     invariant len(result) >= exclLen(d, input, len(input))
+//@     invariant forall k int :: 0 <= k && k < len(input) && keepE(d, input[k]) ==> exclLen(d, input, k) < len(result) && result[exclLen(d, input, k)] == input[k]
 //@   assigns ctx.LastResult, ctx.BeforeLastResult
 //
 // intersect(d): items of the input (primitives as System values) equal to some item of d,
@@ -548,11 +552,14 @@ package impl
 //@   requires forall k int :: 0 <= k && k < len(args) ==> args[k] != nil
 //@   defines res == toS(1, input, args) && err == toE(1, input, args)
 //@   ensures len(input) == 0 && len(args) == 0 ==> err == nil && len(res) == 0
-//@   ensures len(input) == 1 && len(args) == 0 ==> err == nil
+// (clause 2 is the known finding, narrowed to it: a String that does not parse is an error
+// instead of empty; every other single input converts without error: last clause)
+//@   ensures len(input) == 1 && len(args) == 0 && fromOk(input[0]) && isStringV(fromS(input[0])) && !parseOkK(1, unbox(fromS(input[0]), system.String)) ==> err == nil
 //@   ensures err == nil ==> len(res) <= 1 && (len(res) == 1 ==> isKind(1, res[0]))
 //@   ensures len(input) == 1 && len(args) == 0 && fromOk(input[0]) && isKind(1, fromS(input[0])) ==> err == nil && len(res) == 1 && res[0] == fromS(input[0])
 //@   ensures len(input) == 1 && len(args) == 0 && fromOk(input[0]) && isStringV(fromS(input[0])) && parseOkK(1, unbox(fromS(input[0]), system.String)) ==> len(res) == 1 && res[0] == parseValK(1, unbox(fromS(input[0]), system.String))
 //@   ensures len(input) == 1 && len(args) == 0 && fromOk(input[0]) && isStringV(fromS(input[0])) && !parseOkK(1, unbox(fromS(input[0]), system.String)) && err == nil ==> len(res) == 0
+//@   ensures len(input) == 1 && len(args) == 0 && !(fromOk(input[0]) && isStringV(fromS(input[0])) && !parseOkK(1, unbox(fromS(input[0]), system.String))) ==> err == nil
 //@   assigns nothing
 //
 //@ func ConvertsToInteger(ctx, input, args) (res, err)
@@ -587,8 +594,11 @@ package impl
 //@   defines res == toS(3, input, args) && err == toE(3, input, args)
 //@   ensures len(input) == 0 && len(args) == 0 ==> err == nil && len(res) == 0
 //@   ensures len(input) == 1 && len(args) == 0 ==> err == nil
-//@   ensures err == nil ==> len(res) <= 1 && (len(res) == 1 ==> isKind(3, res[0]))
+// (clause 3 is the known finding, narrowed to it: for an item that is not a System value the
+// result is a Boolean; for every other input the result is at most one String: last clause)
+//@   ensures err == nil && len(input) == 1 && !fromOk(input[0]) ==> len(res) <= 1 && (len(res) == 1 ==> isKind(3, res[0]))
 //@   ensures len(input) == 1 && len(args) == 0 && fromOk(input[0]) && isKind(3, fromS(input[0])) ==> err == nil && len(res) == 1 && res[0] == fromS(input[0])
+//@   ensures err == nil && !(len(input) == 1 && !fromOk(input[0])) ==> len(res) <= 1 && (len(res) == 1 ==> isKind(3, res[0]))
 //@   assigns nothing
 //
 //@ func ConvertsToString(ctx, input, args) (res, err)
